@@ -80,6 +80,9 @@ package freelist
 //@ func (cp *FreeList) flushBlock(blk types.Block) (work types.Work, err error)  property C13
 //@   holds cp.flushLock
 //@   ensures @work err == nil ==> work == 12
+// entry layout (writer side): 8 bytes offset then 4 bytes size, little endian - what Iterator.Next reads
+//@   assert at before call (*bufio.Writer).Write#0: @entry-offset-first len($a1) == 8 && le64(bytes($a1), 0) == blk.Offset
+//@   assert at before call (*bufio.Writer).Write#1: @entry-size-second len($a1) == 4 && le32(bytes($a1), 0) == blk.Size
 //@   internal ensures @two-writes event("call:(*bufio.Writer).Write") <= 2 && (err == nil ==> event("call:(*bufio.Writer).Write") == 2)
 
 //@ func (cp *FreeList) Flush() (work types.Work, err error)  property C13
@@ -115,5 +118,7 @@ package freelist
 //@   ensures it != nil
 //@ func (cpi *Iterator) Next() (blk *types.Block, err error)  property C13
 //@   fresh blk
+// entry layout (reader side): the 12 bytes read are 8 bytes offset then 4 bytes size, little endian
+//@   internal ensures @entry-layout err == nil ==> len(data) == 12 && blk.Offset == le64(bytes(data), 0) && blk.Size == le32(bytes(data), 8)
 //@   ensures err == nil ==> blk != nil
 //@   ensures err != nil ==> blk == nil
